@@ -1,27 +1,16 @@
-"""Concrete run of the battery: oracle vs package (developer tool)."""
+"""Concrete run of the battery: oracle vs package + riders (developer tool)."""
 import sys
 sys.path.insert(0, "/verif")
 from vlib import env
 import hdl21 as h
-from vlib.dsl import ref_nets, describe_diff
-from vlib.build import build
-from vlib.pkgread import pkg_nets, check_package
+from vlib import designcheck as dc
 from harness._battery import battery
 style = sys.argv[1] if len(sys.argv) > 1 else "proc"
 for label, top in battery():
-    env.reset_all()
-    want, wl = ref_nets(top)
     try:
-        pkg = h.to_proto(build(top, style))
+        ok = dc.run(top, style)
     except Exception as ex:
-        print(f"{label:28s} EXC {type(ex).__name__}: {str(ex).splitlines()[-1][:100]}")
+        import traceback
+        print(f"{label:28s} EXC {type(ex).__name__}: {str(ex).splitlines()[-1][:160]}")
         continue
-    try:
-        got, gl = pkg_nets(pkg)
-    except AssertionError as ex:
-        print(f"{label:28s} READ-ERR {ex}"); continue
-    ok = want == got and [l[0] for l in wl] == [l[0] for l in gl]
-    probs = check_package(pkg)
-    print(f"{label:28s} {'OK' if ok else 'MISMATCH'} {probs[:2] if probs else ''}")
-    if not ok:
-        print("    ", describe_diff(want, got))
+    print(f"{label:28s} {'OK' if ok else 'FAIL ' + dc.LAST['why'][:300]}")
